@@ -8,43 +8,53 @@ SPEC = os.path.join(VERIF, "specs", "Access")
 HARNESS = ["harness/db/c03_access_test.go"]
 MODES = ("eager", "mixed", "lazy")
 GRANTING = ("DocWrite", "DocDelete", "DocConflict")
+WRITES = GRANTING + ("AdminPut", "AdminDelete")
+CHUNK = 1500          # behaviours per go test / TLC validation run
 
 
 def run(ctx):
-    # 1. the design: the invalidation protocol with commit / post-commit invalidation as separate steps and
-    #    recomputation atomic - EffectiveAccess, CacheSound, ... over all interleavings of the bounded model
+    # 1. the design: the invalidation protocol with document commit / post-commit invalidation as separate steps and
+    #    principal recomputation atomic: EffectiveAccess, CacheSound, ... over all interleavings of the bounded model
     model_check(ctx, SPEC, "MC_Access", "MC_Access.cfg" if ctx.quick() else "MC_Access_thorough.cfg", timeout=3000)
     ctx.cov["exhaustive"] = True
 
-    # 2. behaviours: every action sequence of a one-user/one-role/one-document instance + seeded simulations of the
-    #    two-user/two-role/two-document instance; replayed on one real database, validated by TLC (P then C)
+    # 2. behaviours: every action sequence (length 3) of the one-user/one-role/one-document instance + seeded TLC
+    #    simulations (length 12) of the two-user/two-role/two-document instance; replayed on one real database,
+    #    the recorded real state validated by TLC (property on real state, then action conformance)
     rnd = random.Random(ctx.seed)
-    behs = behaviours(ctx, SPEC, "MC_Access", "Beh_Access.cfg")
-    sim = behaviours(ctx, SPEC, "MC_Access", "Sim_Access.cfg", num=60 if ctx.quick() else 700, depth=14)
-    behs += pick_sim(sim, rnd, 240 if ctx.quick() else 3000)
+    small = behaviours(ctx, SPEC, "MC_Access", "Beh_Access.cfg")
+    if ctx.quick():
+        rnd.shuffle(small)
+        small = small[:400]
+    sim = behaviours(ctx, SPEC, "MC_Access", "Sim_Access.cfg", num=50 if ctx.quick() else 500, depth=14, timeout=3000)
+    behs = small + pick_sim(sim, rnd, 200 if ctx.quick() else 3000)
     jobs = [{"id": i, "mode": MODES[(i + ctx.seed) % 3], "steps": b} for i, b in enumerate(behs)]
-    replay_and_validate(ctx, jobs, "main")
+    for k in range(0, len(jobs), CHUNK):
+        replay_and_validate(ctx, jobs[k:k + CHUNK], "main%d" % (k // CHUNK))
 
     # 3. candidates: the same model with the recomputation split at its CAS write (SplitLoad) admits behaviours that
-    #    end in a quiet request not seeing Eff(u).  They are model counterexamples = candidates only; each is replayed
-    #    on the real code with the schedule forced at the storage boundary and judged by pass P on the real trace.
+    #    end in a quiet request not seeing Eff(u).  They are model counterexamples, i.e. candidates only; each is
+    #    replayed on the real code with the schedule forced at the storage boundary and judged by pass P.
     race_candidates(ctx)
 
-    ctx.cov["rule"] = ("behaviours = all action sequences of length 3 over {u1,r1,d1} + seeded TLC simulations of length 12 over "
-                       "2 users/2 roles/2 docs/channels A,B,* (conflicting branches, tombstones, resurrection, role delete/purge/recreate); "
-                       "the harness adds Request(u) after every action (eager), after random actions (mixed) or only at the end (lazy); "
-                       "non-trivial = a behaviour with a granting revision followed by a request of an existing user")
+    ctx.cov["rule"] = ("behaviours = all action sequences of length 3 over {u1,r1,d1} (seeded sample of 400 in the quick tier) + seeded TLC "
+                       "simulations of length 12 over 2 users/2 roles/2 docs/channels A,B,* (conflicting branches that win or lose, "
+                       "tombstones, resurrection, role delete/purge/recreate, user delete/recreate); the harness adds Request(u) after "
+                       "every action (eager), after about half (mixed) or only at the end (lazy), and always for every user at the end; "
+                       "non-trivial = a behaviour with a granting/revoking revision followed by a request of an existing user")
     ctx.assumptions += [
         "ground truth = admin inputs + the grants each revision was written with + the REAL current revision (branch) of each document; "
-        "the gateway's own access maps are only cross-checked (pass C)",
-        "tombstones are written with DeleteDoc (body {_deleted:true}); a tombstone that itself carries granting body fields is outside the replayed inputs (see NOTES.md)",
-        "the window between a document commit and its post-commit invalidation is explored in the model only (a request inside it is concurrent with the write)",
+        "the gateway's own access maps are only cross-checked (pass C: StoredMatchesWinner, CacheSound)",
+        "tombstones are written with DeleteDoc (body {_deleted:true}); a tombstone whose own body makes the sync function grant is outside "
+        "the replayed inputs (specs/Access/NOTES.md)",
+        "the window between a document commit and its post-commit invalidation is explored in the model only (a request inside it is "
+        "concurrent with the write, for which the property demands nothing)",
         "Rosmar + views (stale=false) stand for the access queries; storage faults are C11's subject",
     ]
 
 
 def pick_sim(sim, rnd, cap):
-    """TLC -simulate prints one behaviour per successor of the last state: keep few per common prefix."""
+    """TLC -simulate evaluates the export on every successor of the last state: keep two per common prefix."""
     groups = {}
     for b in sim:
         groups.setdefault(json.dumps(b[:-1], sort_keys=True), []).append(b)
@@ -68,79 +78,107 @@ def run_harness(ctx, jobs, tag):
 
 
 def split_rows(rows):
-    """-> {behaviour id: (first line index (0-based), rows)}"""
+    """-> {behaviour id: rows of that behaviour (starting with its Reset)}"""
     res, cur = {}, None
-    for i, r in enumerate(rows):
+    for r in rows:
         if r["a"] == "Reset":
             cur = r["beh"]
-            res[cur] = (i, [])
-        res[cur][1].append(r)
+            res[cur] = []
+        res[cur].append(r)
     return res
 
 
 def nontrivial(rs):
-    seen_grant = False
+    seen = False
     for r in rs:
         if r["a"] in GRANTING:
-            seen_grant = True
-        elif r["a"] == "Request" and r["found"] and seen_grant:
+            seen = True
+        elif r["a"] == "Request" and r["found"] and seen:
             return True
     return False
 
 
-def locate(rows, line):
-    idx = None
-    for r in rows[:max(0, (line or 1) - 1)]:
+def failing(rows, line):
+    """violating state = position `line`, produced by trace row line-1 (1-based) -> (behaviour id, index in behaviour, row)"""
+    bid, first = None, 0
+    n = max(0, (line or 1) - 1)
+    for i, r in enumerate(rows[:n]):
         if r["a"] == "Reset":
-            idx = r["beh"]
-    return idx
+            bid, first = r["beh"], i
+    row = rows[n - 1] if 0 < n <= len(rows) else {}
+    return bid, n - 1 - first, row
 
 
-def describe(rows, line):
-    if not line or line < 2 or line - 1 > len(rows):
-        return ""
-    r = rows[line - 2]          # the state at position l was produced by line l-1
-    if r.get("a") != "Request":
-        return " after %s" % r.get("a")
-    return " Request(%s) returned channels %s roles %s" % (r["u"], r["chans"], r["roles"])
+def describe(row):
+    if row.get("a") != "Request":
+        return " after %s" % row.get("a")
+    return " Request(%s) returned found=%s channels %s roles %s" % (row["u"], row["found"], row["chans"], row["roles"])
+
+
+def slim(rs):
+    return [{k: v for k, v in r.items() if k not in ("cache", "dacc", "win")} for r in rs]
+
+
+def ordinary_violation(ctx, vp, rows, jobs, where):
+    bid, _, row = failing(rows, vp.line)
+    job = next((j for j in jobs if j["id"] == bid), None)
+    key = "%s:%s" % (vp.inv, json.dumps(job["steps"] if job else None, sort_keys=True))
+    report_violation(ctx, key, "real database breaks %s at %s line %s (behaviour %s, mode %s):%s" % (
+        vp.inv, where, vp.line, bid, job and job["mode"], describe(row)),
+        {"behaviour": job, "invariant": vp.inv, "real_trace": slim(split_rows(rows).get(bid, [])), "state": (vp.state or {}).get("_txt")})
+
+
+def conformance(ctx, tr, rows, njobs, tag):
+    vc = validate(ctx, SPEC, "Trace_Access", "Trace_Access_C.cfg", tr, timeout=1800, tag=tag + "-C")
+    if vc.inv or not vc.accepted:
+        ctx.cov["nonconformance"] += 1
+        bid, _, row = failing(rows, (vc.line or 0) + (0 if vc.inv else 1))
+        ctx.notes.append("pass C rejected %s at line %s (%s), behaviour %s: %s" % (tag, vc.line, vc.inv, bid, json.dumps(row)[:700]))
+    else:
+        ctx.cov["traces_validated_against_impl"] += njobs
 
 
 def replay_and_validate(ctx, jobs, tag):
     tr, rows = run_harness(ctx, jobs, tag)
     per = split_rows(rows)
     ctx.cov["evaluations"] += len(jobs)
-    ctx.cov["distinct_nontrivial"] += sum(1 for k in per if nontrivial(per[k][1]))
+    ctx.cov["distinct_nontrivial"] += sum(1 for k in per if nontrivial(per[k]))
     ctx.cov["requests_evaluated"] = ctx.cov.get("requests_evaluated", 0) + sum(1 for r in rows if r["a"] == "Request")
+    ctx.cov["trace_lines"] = ctx.cov.get("trace_lines", 0) + len(rows)
     mid = jobs[len(jobs) // 2]
-    ctx.sample({"behaviour": mid, "real_trace_tail": [{k: v for k, v in r.items() if k in ("a", "u", "found", "chans", "roles")}
-                                                      for r in per[mid["id"]][1][-2:]]})
-    vp = validate(ctx, SPEC, "Trace_Access", "Trace_Access_P.cfg", tr, timeout=1800)
+    ctx.sample({"behaviour": mid, "real_trace_tail": slim(per[mid["id"]][-2:])}, cap=2)
+    vp = validate(ctx, SPEC, "Trace_Access", "Trace_Access_P.cfg", tr, timeout=1800, tag=tag + "-P")
     if vp.inv:
-        bid = locate(rows, vp.line)
-        job = next((j for j in jobs if j["id"] == bid), None)
-        key = "%s:%s" % (vp.inv, json.dumps(job["steps"] if job else None, sort_keys=True))
-        report_violation(ctx, key, "real database breaks %s at trace line %s (behaviour %s, mode %s):%s" % (
-            vp.inv, vp.line, bid, job and job["mode"], describe(rows, vp.line)),
-            {"behaviour": job, "invariant": vp.inv, "real_trace": per.get(bid, (0, []))[1], "state": (vp.state or {}).get("_txt")})
+        ordinary_violation(ctx, vp, rows, jobs, "trace " + tag)
         return
     if not vp.accepted:
         raise Inconclusive("pass P stopped at line %s of %s (trace shape not accepted)\n%s" % (vp.line, vp.total, vp.out[-1500:]))
-    vc = validate(ctx, SPEC, "Trace_Access", "Trace_Access_C.cfg", tr, timeout=1800)
-    if vc.inv or not vc.accepted:
-        ctx.cov["nonconformance"] += 1
-        ctx.notes.append("pass C rejected at line %s (%s), behaviour %s: %s" % (
-            vc.line, vc.inv, locate(rows, vc.line), json.dumps(rows[vc.line - 1])[:600] if vc.line and vc.line <= len(rows) else None))
-    else:
-        ctx.cov["traces_validated_against_impl"] += len(jobs)
+    conformance(ctx, tr, rows, len(jobs), tag)
 
 
 # ------------------------------------------------------------------------------------------------------------
+# split-load candidates
 def race_class(b):
-    """which principal kind was being recomputed while something else was written"""
+    """the forced-schedule family: which kind of principal is being recomputed while something else is written"""
+    kind, overl = None, False
     for st in b:
         if st["a"] == "LoadBegin":
-            return "user" if st["p"].startswith("u") else "role"
-    return "none"
+            kind = "user" if st["p"].startswith("u") else "role"
+        elif st["a"] == "LoadEnd":
+            break
+        elif kind and st["a"] in WRITES:
+            overl = True
+    return kind if (kind and overl) else None
+
+
+def control(b):
+    """the same inputs with the recomputation not overlapping anything (atomic, where it completed)"""
+    res = []
+    for st in b:
+        if st["a"] == "LoadBegin":
+            continue
+        res.append({"a": "Load", "p": st["p"]} if st["a"] == "LoadEnd" else st)
+    return res
 
 
 def race_candidates(ctx):
@@ -153,31 +191,48 @@ def race_candidates(ctx):
         raise
     ctx.cov["race_candidates"] = len(cands)
     cands.sort(key=lambda b: (len(b), json.dumps(b, sort_keys=True)))
+    cap = 6 if ctx.quick() else 40
+    jobs, group = [], {}
     for cls in ("user", "role"):
-        sel = [b for b in cands if race_class(b) == cls][:8 if ctx.quick() else 40]
-        if not sel:
+        for b in [b for b in cands if race_class(b) == cls][:cap]:
+            for g, steps in ((cls, b), ("ctrl", control(b))):
+                jobs.append({"id": len(jobs), "mode": "lazy", "steps": steps})
+                group[jobs[-1]["id"]] = g
+    if not jobs:
+        return
+    tr, rows = run_harness(ctx, jobs, "race")
+    per = split_rows(rows)
+    ctx.cov["evaluations"] += len(jobs)
+    ctx.sample({"race_candidate": jobs[0]["steps"], "real_trace": slim(per[0])}, cap=3)
+    for g in ("ctrl", "user", "role"):
+        ids = [j["id"] for j in jobs if group[j["id"]] == g]
+        if not ids:
             continue
-        jobs = [{"id": i, "mode": "lazy", "steps": b} for i, b in enumerate(sel)]
-        tr, rows = run_harness(ctx, jobs, "race-" + cls)
-        ctx.cov["evaluations"] += len(jobs)
-        vp = validate(ctx, SPEC, "Trace_Access", "Trace_Access_P.cfg", tr, timeout=900, tag="race-%s-P" % cls)
+        grows = [r for i in ids for r in per[i]]
+        gtr = os.path.join(ctx.scratch, "c03-race-%s.ndjson" % g)
+        write_ndjson(gtr, grows)
+        gjobs = [j for j in jobs if j["id"] in ids]
+        vp = validate(ctx, SPEC, "Trace_Access", "Trace_Access_P.cfg", gtr, timeout=900, tag="race-%s-P" % g)
         if vp.inv:
-            bid = locate(rows, vp.line)
-            per = split_rows(rows)
-            key = "%s:recompute-of-%s-overlaps-write" % (vp.inv, cls)
-            report_violation(ctx, key,
-                             "real database breaks %s when the recomputation of an invalidated %s (getPrincipal: view query ... CAS write) overlaps a "
-                             "write whose invalidation finds the principal already invalid:%s; expected per ground truth of behaviour %s" % (
-                                 vp.inv, cls, describe(rows, vp.line), json.dumps(jobs[bid]["steps"]) if bid is not None else "?"),
-                             {"behaviour": jobs[bid] if bid is not None else None, "invariant": vp.inv,
-                              "real_trace": per.get(bid, (0, []))[1], "schedule": "LoadBegin..LoadEnd forced with LeakyBucket UpdateCallback on the principal document"})
+            bid, idx, row = failing(grows, vp.line)
+            steps = jobs[bid]["steps"] if bid is not None else []
+            ends = [i for i, r in enumerate(per.get(bid, [])) if r["a"] == "LoadEnd"]
+            if g != "ctrl" and race_class(steps) == g and row.get("a") == "Request" and ends and idx > ends[0]:
+                # the class key is the schedule family; a failure of a control, or before the overlapped
+                # recomputation completed, is an ordinary violation and keeps its own key
+                report_violation(ctx, "%s:recompute-of-%s-overlaps-write" % (vp.inv, g),
+                                 "lost invalidation: the recomputation of an already-invalidated %s (auth.getPrincipal: view query ... CAS write) "
+                                 "overlapped a write; its invalidation left the principal document untouched, the stale result was saved as valid "
+                                 "and a later quiet%s; ground truth from behaviour %s" % (g, describe(row), json.dumps(steps)),
+                                 {"behaviour": jobs[bid], "invariant": vp.inv, "real_trace": slim(per[bid]),
+                                  "schedule": "LoadBegin..LoadEnd forced with LeakyBucket UpdateCallback on the principal document "
+                                              "(after the recomputation, before its CAS write)"})
+                ctx.cov["race_reproduced_" + g] = True
+            else:
+                ordinary_violation(ctx, vp, grows, gjobs, "race trace " + g)
             continue
         if not vp.accepted:
-            raise Inconclusive("pass P stopped at line %s of %s on race candidates (%s)\n%s" % (vp.line, vp.total, cls, vp.out[-1500:]))
-        ctx.notes.append("split-load candidates (%s): %d replayed with forced schedule, none reproduced on the real code" % (cls, len(sel)))
-        vc = validate(ctx, SPEC, "Trace_Access", "Trace_Access_C.cfg", tr, timeout=900, tag="race-%s-C" % cls)
-        if vc.inv or not vc.accepted:
-            ctx.cov["nonconformance"] += 1
-            ctx.notes.append("pass C rejected race trace (%s) at line %s (%s)" % (cls, vc.line, vc.inv))
-        else:
-            ctx.cov["traces_validated_against_impl"] += len(jobs)
+            raise Inconclusive("pass P stopped at line %s of %s on split-load traces (%s)\n%s" % (vp.line, vp.total, g, vp.out[-1500:]))
+        if g != "ctrl":
+            ctx.notes.append("split-load candidates (%s): %d replayed with the forced schedule, none reproduced on the real code" % (g, len(ids)))
+        conformance(ctx, gtr, grows, len(ids), "race-" + g)
